@@ -102,7 +102,9 @@ def real_eval(text):
         return parse_expression(LineIdentifier(1, 'bounded'), text).get_value(None, LineIdentifier(1, 'bounded'))
     except SystemExit:
         raise Reject()
-    except (SyntaxError, IndexError, ValueError, ZeroDivisionError, TypeError, AttributeError, OverflowError):
+    except RecursionError:
+        raise
+    except Exception:  # noqa  (whatever the parser dies of: the text was not given a value)
         raise Reject()
 
 
